@@ -173,6 +173,12 @@ def check_C15(run):
               ["go wtime 1000 btime 1000 movestogo 0"], ["go split 0"], ["go depth 0"], ["go nodes 0"], ["go movetime 0"],
               ["position fen 7k/8/8/8/8/8/8/K5R1 w - - 100 80", "go depth 2"], [], ["quit"], ["isready", "isready"],
               ["position startpos moves g1f3 g8f6 f3g1 f6g8 g1f3 g8f6 f3g1 f6g8", "go depth 2", "history"]]
+    for f in G.EXTREME_FENS[:3]:
+        corpus.append(["position fen " + f, "go depth 1", "isready", "go nodes 0", "go perft 1", "eval", "print"])
+        corpus.append(["isready", "position fen " + f, "go movetime 1", "go depth 2"])
+    many = [e["fen"] for e in P["pool"] if e["cls"] in ("many", "extreme")]
+    for f in rng.sample(many, min(len(many), 12 if th else 4)):
+        corpus.append(["position fen " + f, "go depth 1", "go nodes 50", "isready"])
     scripts = [(c, any("time" in l for l in c)) for c in corpus] + scripts
     model = vlib.run_model_par(["session\twrapping\t" + "|".join(l.replace("|", " ") for l in s) for s, _ in scripts])
     modelc = vlib.run_model_par(["session\tchecked\t" + "|".join(l.replace("|", " ") for l in s) for s, _ in scripts])
